@@ -41,10 +41,13 @@ type Aggregated struct {
 // reorder at your choosing.
 func (s *Snapshot) Aggregate(similar Similarity) *Aggregated {
 	type count struct {
+		key   *Signature
 		ids   []int
 		first bool
 	}
 	b := map[*Signature]*count{}
+	// order keeps the buckets in creation order so the result is deterministic.
+	var order []*count
 	// O(n²). Fix eventually.
 	for _, routine := range s.Goroutines {
 		found := false
@@ -58,6 +61,7 @@ func (s *Snapshot) Aggregate(similar Similarity) *Aggregated {
 					// Almost but not quite equal. There's different pointers passed
 					// around but the same values. Zap out the different values.
 					newKey := key.merge(&routine.Signature)
+					c.key = newKey
 					b[newKey] = c
 					delete(b, key)
 				}
@@ -68,13 +72,15 @@ func (s *Snapshot) Aggregate(similar Similarity) *Aggregated {
 			// Create a copy of the Signature, since it will be mutated.
 			key := &Signature{}
 			*key = routine.Signature
-			b[key] = &count{ids: []int{routine.ID}, first: routine.First}
+			c := &count{key: key, ids: []int{routine.ID}, first: routine.First}
+			b[key] = c
+			order = append(order, c)
 		}
 	}
-	bs := make([]*Bucket, 0, len(b))
-	for signature, c := range b {
+	bs := make([]*Bucket, 0, len(order))
+	for _, c := range order {
 		sort.Ints(c.ids)
-		bs = append(bs, &Bucket{Signature: *signature, IDs: c.ids, First: c.first})
+		bs = append(bs, &Bucket{Signature: *c.key, IDs: c.ids, First: c.first})
 	}
 	// Do reverse sort.
 	sort.SliceStable(bs, func(i, j int) bool {
